@@ -182,7 +182,25 @@ pub(crate) fn alpha_normalize<L: Language>(n: &L) -> L {
         let all_slots: SmallHashSet<_> = sh.all_slot_occurrences().into_iter().collect();
         assert!(&bij.values().is_disjoint(&all_slots));
     }
-    sh.apply_slotmap(&bij)
+    // Public slots get their names back. Private (bound) slots are numbered on their own, in order of occurrence,
+    // so that their names do not depend on how many public slots occur before them
+    // (two congruent nodes can differ in that, when a child has a redundant slot on one side only).
+    let mut sh = sh;
+    let mut prv = SlotMap::new();
+    for s in sh.all_slot_occurrences_mut() {
+        *s = match bij.get(*s) {
+            Some(p) => p,
+            None => match prv.get(*s) {
+                Some(p) => p,
+                None => {
+                    let p = Slot::numeric(prv.len() as u32);
+                    prv.insert(*s, p);
+                    p
+                }
+            },
+        };
+    }
+    sh
 }
 
 impl CongruenceProof {
